@@ -270,6 +270,82 @@ func c01LatestRulesMonitor(c *plCfg, q *plQuery, o *plObs) (ok bool, msg string,
 	return true, "", classes
 }
 
+// c01ServiceMonitor states the blocked-service clause on the list of ids in
+// force for the client (global or the client's own, not paused), whatever
+// else the list holds: the first KNOWN id of the list one of whose rules is
+// a plain "||name^" for the name (or a parent) blocks the query, answered
+// locally and reported under that service, provided nothing else could
+// concern the name (no rule-list rule about it when filtering is on for the
+// client; every service rule about it in the list is such a plain rule).
+// Ids the service table does not know are skipped wherever they stand.
+func c01ServiceMonitor(c *plCfg, q *plQuery, o *plObs) (ok bool, msg string, classes []string) {
+	if c.round2() || o.Panic != nil || q.RDNS != (netip.Prefix{}) {
+		return true, "", nil
+	}
+	if (c.AAAADisabled && q.QType == dns.TypeAAAA) || q.Name == mozillaFQDN || q.Name == healthcheckFQDN {
+		return true, "", nil
+	}
+	protection, filteringOn, _, _, svcs := plEffective(c, q)
+	if !protection || len(svcs) == 0 {
+		return true, "", nil
+	}
+	host := strings.ToLower(strings.TrimSuffix(q.Name, "."))
+	unknownSeen, unknownAny := false, false
+	for _, id := range svcs {
+		if !plKnownSvc(id) {
+			unknownAny = true
+		}
+	}
+	if unknownAny {
+		classes = append(classes, "svc-unknown-id-in-list-in-force")
+	}
+	if filteringOn {
+		for _, rs := range [][]*vfRule{c.Allow, c.BlockRules()} {
+			for _, r := range rs {
+				if plRelated(r, host) {
+					return true, "", classes
+				}
+			}
+		}
+	}
+	first, firstAfterUnknown := "", false
+	for _, id := range svcs {
+		if !plKnownSvc(id) {
+			unknownSeen = true
+			continue
+		}
+		for _, s := range plServices {
+			if s.ID != id {
+				continue
+			}
+			for _, r := range s.Rules {
+				if !plRelated(r, host) {
+					continue
+				}
+				if !plPlainBlock(r, host) {
+					return true, "", classes
+				}
+				if first == "" {
+					first, firstAfterUnknown = id, unknownSeen
+				}
+			}
+		}
+	}
+	if first == "" {
+		return true, "", classes
+	}
+	classes = append(classes, "svc-known-id-blocks")
+	if firstAfterUnknown {
+		classes = append(classes, "svc-known-id-after-unknown-blocks")
+	}
+	res := o.Result
+	if res == nil || !res.IsFiltered || res.Reason != filtering.FilteredBlockedService || res.ServiceName != first || len(o.Calls) != 0 {
+		return false, fmt.Sprintf("%s belongs to the blocked service %s of the list in force %q (ids the service table does not know are skipped) but was not answered locally as blocked by it: result %v, upstream asked %v",
+			host, first, svcs, res, o.Calls), classes
+	}
+	return true, "", classes
+}
+
 func c01Classes(c *plCfg, q *plQuery, o *plObs) (cl []string) {
 	res := o.Result
 	if c.DDR && q.Name == ddrHostFQDN {
@@ -562,6 +638,21 @@ func TestVerifC01(t *testing.T) {
 			if !ok && ps.refreshMode {
 				msg += fmt.Sprintf(" [history: %s]", strings.Join(ps.rf.desc, "; "))
 			}
+		}
+		// blocked services: a known id of the list in force is applied
+		// wherever it stands, an unknown id is skipped
+		sOK, sMsg, sClasses := c01ServiceMonitor(ps.cfg, q, &o)
+		if ok && !sOK {
+			ok, msg = false, sMsg
+		}
+		extra = append(extra, sClasses...)
+		if ps.cfg.SvcIDsMode {
+			ro := ps.svcReference(t).run(q)
+			if d := plDiffObs(&o, &ro); ok && d != "" {
+				ok, msg = false, fmt.Sprintf("%s %s: the unknown ids of the blocked-service lists are not simply skipped: %s (the other server holds the known ids only)",
+					q.Name, dns.TypeToString[q.QType], d)
+			}
+			extra = append(extra, "svc-compared-with-known-ids-only")
 		}
 		res := o.Result
 		var defs []vfDef
@@ -1272,6 +1363,118 @@ func TestVerifC01(t *testing.T) {
 				q.Name = mozillaFQDN // the Firefox canary name
 			}
 			emit(ps, q)
+		}
+	}
+
+	// --- round 9: lists of blocked-service ids holding ids the service table
+	// does not know, at any position, in the global list (stored through the
+	// deprecated POST /control/blocked_services/set, the one entry point of
+	// the filtering module that accepts them) and in a client's own list
+	// (the client storage accepts them; the admin handlers validate)
+	unknownIDs := []string{"no_such_service", "vf_gone", "VF_BETA", "vf_alph", ""}
+	svcAsk := func(ps *plServer, name string, addr string, extra ...string) {
+		emit(ps, &plQuery{Name: name, QType: dns.TypeA, Addr: netip.MustParseAddr(addr), Answer: c01Answer(rnd.Fork(11), name, dns.TypeA)}, extra...)
+	}
+	for _, ids := range [][]string{
+		{"vf_beta"}, {"vf_beta", "no_such_service"}, {"no_such_service", "vf_beta"}, {"no_such_service"},
+		{"vf_gone", "vf_alpha", "VF_BETA", "vf_beta"}, {"", "vf_alpha"}, {"vf_alph", "no_such_service", "vf_alpha", "vf_beta"},
+	} {
+		c := base()
+		c.Svcs, c.SvcViaSet, c.SvcIDsMode = ids, true, true
+		ps := plNewServer(t, c)
+		if got := ps.storedSvcIDs(t); strings.Join(got, ",") != strings.Join(ids, ",") {
+			t.Fatalf("blocked_services/set %q stored %q", ids, got)
+		}
+		svcAsk(ps, "x.test.", "10.0.0.1", "prelude-svc-ids")
+		svcAsk(ps, "C.b.a.test.", "10.0.0.1", "prelude-svc-ids")
+		svcAsk(ps, "xa.test.", "10.0.0.2", "prelude-svc-ids")
+		// the two entry points in turn: the validating one refuses a list
+		// with an unknown id and leaves the stored one alone, accepts the
+		// known ids; the deprecated one stores anything
+		var calls []string
+		var descs []string
+		okAll := true
+		do := func(update bool, l []string, want bool) {
+			step, acc := ps.svcCall(t, update, l)
+			calls = append(calls, step)
+			descs = append(descs, fmt.Sprintf("%s %q -> accepted=%v, stored %q", map[bool]string{false: "set", true: "update"}[update], l, acc, ps.cfg.Svcs))
+			if acc != want {
+				okAll = false
+			}
+			svcAsk(ps, "x.test.", "10.0.0.1", "prelude-svc-ids")
+			svcAsk(ps, "c.b.a.test.", "10.0.0.1", "prelude-svc-ids")
+		}
+		allKnown := len(plKnownSvcs(ids)) == len(ids)
+		do(true, ids, allKnown)
+		do(true, plKnownSvcs(ids), true)
+		do(false, ids, true)
+		do(true, append([]string{"vf_gamma"}, ids...), allKnown)
+		out.Emit(vfCase{Coq: vfApp("CSvcStore", plSvcTableCoq(), vfBytesList(ids), vfList("svc_entry * bool * list bytes", calls)),
+			Nontrivial: true, Classes: []string{"svc-entry-points-history"}, MonitorOK: okAll,
+			MonitorMsg: fmt.Sprintf("an update holding an unknown id must be refused, any other call accepted: %s", strings.Join(descs, "; ")),
+			FindingKey: "c01-svc-entry-" + vfHash(ids),
+			Desc:       map[string]any{"initial": ids, "calls": descs}})
+	}
+	for k := 0; k < 4; k++ {
+		// a client's own list, the global list, both
+		c := base()
+		c.Svcs, c.SvcViaSet, c.SvcIDsMode = []string{"vf_gone", "vf_beta"}, true, true
+		own := [][]string{{"no_such_service", "vf_alpha"}, {"vf_alpha", "no_such_service"}, {"no_such_service"}, {"VF_BETA", "vf_gone", "vf_beta", "vf_alpha"}}[k]
+		c.Clients = []plClient{{Name: "kid", IPs: []string{"10.0.0.2"}, UseOwnSvc: true, Svcs: own}}
+		ps := plNewServer(t, c)
+		for _, a := range []string{"10.0.0.1", "10.0.0.2"} {
+			svcAsk(ps, "x.test.", a, "prelude-svc-ids-client")
+			svcAsk(ps, "c.b.a.test.", a, "prelude-svc-ids-client")
+		}
+	}
+	spice := func(ids []string) []string {
+		n := 1 + rnd.Intn(2)
+		for i := 0; i < n; i++ {
+			at := rnd.Intn(len(ids) + 1)
+			if rnd.Chance(1, 3) {
+				at = 0
+			}
+			ids = append(ids[:at:at], append([]string{vfPick(rnd, unknownIDs)}, ids[at:]...)...)
+		}
+		return ids
+	}
+	nS := out.Scale(40, 1200)
+	for i := 0; i < nS; i++ {
+		c := plGenCfg(rnd, vfNames)
+		if rnd.Chance(3, 4) {
+			c.ProtEnabled, c.Deadline = true, 0
+		}
+		if rnd.Chance(1, 2) {
+			c.Custom, c.Block, c.Allow = nil, nil, nil
+		}
+		c.SvcViaSet, c.SvcIDsMode = true, true
+		c.SvcPaused = rnd.Chance(1, 8)
+		c.Svcs = nil
+		for k := rnd.Intn(3); k >= 0; k-- {
+			c.Svcs = append(c.Svcs, vfPick(rnd, plServices).ID)
+		}
+		if rnd.Chance(5, 6) {
+			c.Svcs = spice(c.Svcs)
+		}
+		for j := range c.Clients {
+			if rnd.Bool() {
+				cl := &c.Clients[j]
+				cl.UseOwnSvc = true
+				cl.SvcPaused = rnd.Chance(1, 8)
+				if len(cl.Svcs) == 0 || rnd.Bool() {
+					cl.Svcs = append(cl.Svcs, vfPick(rnd, plServices).ID)
+				}
+				cl.Svcs = spice(append([]string{}, cl.Svcs...))
+			}
+		}
+		ps := plNewServer(t, c)
+		for k := 0; k < 10; k++ {
+			name := vfMixCase(rnd, vfPick(rnd, vfNames)) + "."
+			qt := dns.TypeA
+			if rnd.Chance(1, 3) {
+				qt = vfPick(rnd, vfQTypes[:7])
+			}
+			emit(ps, &plQuery{Name: name, QType: qt, Addr: netip.MustParseAddr(vfPick(rnd, plClientAddrs)), Answer: c01Answer(rnd, name, qt)}, "svc-ids-stream")
 		}
 	}
 }
